@@ -16,6 +16,8 @@ _FN = {
     "exp": sympy.exp,
     "log": sympy.log,
     "sqrt": sympy.sqrt,
+    "asin": sympy.asin, "acos": sympy.acos, "atanh": sympy.atanh, "sinh": sympy.sinh, "cosh": sympy.cosh, "asinh": sympy.asinh,
+    "acot": sympy.acot, "sec": sympy.sec, "csc": sympy.csc, "cot": sympy.cot,
 }
 
 
@@ -47,6 +49,8 @@ def to_sympy(ast, dt, assume=None):
         return a * b
     if t == "div":
         return a / b
+    if t == "atan2":
+        return sympy.atan2(a, b)
     raise ValueError(t)
 
 
